@@ -51,7 +51,41 @@ def build_file2(shape, seed=0, variant=0):
             seg["drop"] = drop
             seg["declare_full"] = True
         out.append(seg)
-    return {"segs": out}, {"xtype": xt, "ytype": yt, "be": be}
+    if (h // 7) % 2 == 1:
+        inherit_encoding(out)
+    return {"segs": out}, {"xtype": xt, "ytype": yt, "be": be, "inherit": (h // 7) % 2 == 1}
+
+
+def inherit_encoding(segs):
+    """Rewrite the metadata of a file given with explicit segments into the terser encodings TdmsSegments.tla allows
+    (R1-R4): an unchanged index becomes "same as before", and when the object list only grows at its end the
+    kTocNewObjList flag is dropped and unchanged objects are not listed at all.  String indexes carry a byte total
+    that differs from segment to segment, so they are always written out."""
+    last_index = {}
+    prev = None
+    for seg in segs:
+        cur = [(o["p"], o["has"], o["n"], o["ty"]) for o in seg["objs"]]
+        if prev is not None and [c[0] for c in cur][:len(prev)] == [c[0] for c in prev]:
+            seg["newlist"] = False
+            state = {c[0]: c for c in prev}
+        else:
+            state = {}
+        listed = []
+        for c in cur:
+            p, has, n, ty = c
+            if ty != "String" and state.get(p) == c:
+                continue
+            if not has:
+                listed.append({"p": p, "kind": "nodata"})
+            elif ty != "String" and last_index.get(p) == (n, ty):
+                listed.append({"p": p, "kind": "same"})
+            else:
+                listed.append({"p": p, "kind": "full"})
+        for c in cur:
+            if c[1]:
+                last_index[c[0]] = (c[2], c[3])
+        seg["listed"] = listed
+        prev = cur
 
 
 def build_file2_daqmx(shape, h):
